@@ -159,6 +159,11 @@ class Parameter:
 
     def adjust_sigma(self, ratio: float):
         self.sigma *= ratio
+        if self.bounded:
+            # A width beyond the size of the allowed interval gains nothing (the reflected
+            # proposals are already uniform), but where nearly every proposal is accepted
+            # it would keep growing until the reflection loses all floating-point accuracy.
+            self.sigma = min(self.sigma, self.width)
         self.sigma_values.append(copy(self.sigma))
         self.sigma_checks.append(len(self.samples))
         self.avg = 0
